@@ -4,7 +4,7 @@ use nom::Parser;
 use nom::branch::alt;
 use nom::bytes::complete::{is_not, tag};
 use nom::character::complete::{char, multispace1};
-use nom::combinator::{eof, map, map_res, not, opt, peek, value};
+use nom::combinator::{cut, eof, map, map_res, not, opt, peek, value};
 use nom::multi::{fold_many0, fold_many1, many0};
 use nom::sequence::{preceded, terminated};
 use nom_language::error::VerboseError;
@@ -60,7 +60,7 @@ pub fn ignore_comments(input: Span) -> PResult<bool> {
 }
 
 pub fn comment(input: Span) -> PResult<SassString> {
-    preceded(tag("/*"), comment2).parse(input)
+    preceded(tag("/*"), cut(comment2)).parse(input)
 }
 
 pub fn comment2(input: Span) -> PResult<SassString> {
